@@ -904,7 +904,53 @@ def check_sigs(ctx, decls, sigs, count=True):
             ctx.dist["sig_" + g] += m
 
 
+def check_tasksigs(ctx, spellings, results, count=True):
+    """One project, many spellings of `paths`: every spelling must collect the same tasks with the same identity."""
+    ref = None
+    for (cwd, sp, what), r in zip(spellings, results):
+        replay = {"stream": "tasksig", "spellings": [list(ref[0]) if ref else [cwd, sp, what], [cwd, sp, what]]}
+        if count:
+            ctx.case(("tasksig", cwd, sp), ".." in sp or "lnk" in sp)
+        if r["exit"] != 0 or not r["tasks"]:
+            ctx.violation(f"paths-error: collecting with paths={sp!r} from ./{cwd} ended with exit {r['exit']} and {len(r['tasks'])} tasks", replay)
+            continue
+        if ref is None:
+            ref = ((cwd, sp, what), r)
+            continue
+        a, b = ref[1]["tasks"], r["tasks"]
+        if sorted(a) != sorted(b):
+            ctx.violation(f"paths-tasks: paths={ref[0][1]!r} collects {sorted(a)}, paths={sp!r} from ./{cwd} collects {sorted(b)}", replay)
+            continue
+        for name in a:
+            if a[name]["sig"] != b[name]["sig"]:
+                ctx.violation(f"paths-split: task {name} of one unchanged module has two identities: paths={ref[0][1]!r} gives module path "
+                              f"{a[name]['path']!r}, paths={sp!r} from ./{cwd} gives {b[name]['path']!r} (different signatures)", replay)
+                break
+
+
+def run_tasksigs(spellings, seed):
+    root = common.scratch_dir("c12paths")
+    try:
+        make_paths_tree(root)
+        reqs = [{"mode": "tasksigs", "cwd": str(root / cwd), "paths": [sp.replace("@ROOT", str(root))]} for cwd, sp, _ in spellings]
+        res = run_workers(reqs, [seed] * len(reqs))
+    finally:
+        shutil.rmtree(root, ignore_errors=True)
+    for r in res:       # replays and messages must not depend on the scratch location
+        for t in r["tasks"].values():
+            t["path"] = t["path"].replace(str(root), "@ROOT")
+    return res
+
+
+def stream_tasksigs(ctx):
+    spellings = list(PATHS_SPELLINGS)
+    res = run_tasksigs(spellings, ctx.rng.randrange(1, 2 ** 31))
+    check_tasksigs(ctx, spellings, res)
+    ctx.dist["paths_spellings"] += len(spellings)
+
+
 def stream_sigs(ctx):
+    stream_tasksigs(ctx)
     decls = sig_pool(ctx.rng)
     seeds = [0, ctx.rng.randrange(1, 2 ** 31)]
     a, b = run_workers([{"mode": "sigs", "decls": decls}] * 2, seeds)
@@ -1363,6 +1409,43 @@ def pynode_scenarios(rng):
     ]
 
 
+# --- spellings of the `paths` argument (build(paths=…), CLI, pyproject.toml all go through shared.parse_paths) -------------------
+# layout under a scratch root:  proj/{pyproject.toml, task_m.py, in.bin, sub/deep/}   other/   lnk -> proj   far/lnk2 -> ../proj
+PATHS_SPELLINGS = [   # (working directory relative to the root, spelling of the paths argument, what it denotes)
+    ("", "@ROOT/proj", "dir"), ("", "proj", "dir"), ("", "./proj", "dir"), ("proj", ".", "dir"),
+    ("", "proj/sub/..", "dir"), ("", "proj/./sub/..", "dir"), ("", "other/../proj", "dir"), ("", "proj/sub/deep/../..", "dir"),
+    ("proj/sub", "..", "dir"), ("proj/sub", "../../proj", "dir"), ("proj/sub/deep", "../..", "dir"), ("other", "../proj", "dir"),
+    ("", "@ROOT/proj/sub/..", "dir"), ("", "@ROOT/other/../proj", "dir"),
+    ("", "proj/task_m.py", "file"), ("", "@ROOT/proj/task_m.py", "file"), ("", "proj/sub/../task_m.py", "file"),
+    ("", "proj/sub/deep/../../task_m.py", "file"), ("proj/sub", "../task_m.py", "file"), ("", "@ROOT/proj/sub/../task_m.py", "file"),
+    ("", "lnk", "dir"), ("", "lnk/sub/..", "dir"), ("", "lnk/task_m.py", "file"), ("", "far/lnk2", "dir"), ("", "far/lnk2/sub/../task_m.py", "file"),
+    ("far", "lnk2/sub/..", "dir"), ("", "@ROOT/lnk/sub/deep/../..", "dir"),
+]
+
+
+def make_paths_tree(root: Path):
+    proj = root / "proj"
+    (proj / "sub" / "deep").mkdir(parents=True)
+    (root / "other").mkdir()
+    (root / "far").mkdir()
+    (proj / "pyproject.toml").write_text("[tool.pytask.ini_options]\n")
+    (proj / "task_m.py").write_text(TASK_FILE)
+    (proj / "in.bin").write_bytes(b"v1")
+    os.utime(proj / "in.bin", ns=(T0, T0))
+    (root / "lnk").symlink_to("proj")
+    (root / "far" / "lnk2").symlink_to("../proj")
+
+
+def spell_scenarios(rng):
+    """kind "spell": a history of builds of ONE unchanged project, every build naming it by another spelling of `paths`."""
+    n = len(PATHS_SPELLINGS)
+    dotdot = [i for i, sp in enumerate(PATHS_SPELLINGS) if ".." in sp[1]]
+    out = [{"kind": "spell", "steps": [1, 4, 16, 20, 0]},          # relative, through sub/.., file through sub/.., symlink, absolute
+           {"kind": "spell", "steps": [0, 8, 21, 9]}]
+    out.append({"kind": "spell", "steps": [rng.randrange(n), rng.choice(dotdot), rng.randrange(n), rng.choice(dotdot)]})
+    return out
+
+
 def value_scenarios(rng):
     sc = [
         {"kind": "value", "values": [(1, 23), (1, 23), (12, 3), (1, 24)]},                 # F3 in the third build
@@ -1408,6 +1491,13 @@ def run_scenario(sc, hashseed):
                 r = run_worker({"mode": "build", "root": str(root)}, hashseed)
                 r["product"] = (root / "out.txt").read_text() if (root / "out.txt").exists() else None
                 builds.append(r)
+        elif sc["kind"] == "spell":
+            make_paths_tree(root)
+            for k in sc["steps"]:
+                cwd, sp, _ = PATHS_SPELLINGS[k]
+                r = run_worker({"mode": "build", "root": str(root), "cwd": str(root / cwd), "paths": [sp.replace("@ROOT", str(root))]}, hashseed)
+                r["product"] = list((root / "proj" / "out.bin").read_bytes()) if (root / "proj" / "out.bin").exists() else None
+                builds.append(r)
         elif sc["kind"] == "link":
             (root / "task_m.py").write_text(TASK_LINK)
             for i in range(3):      # all data files exist from the start, with distinct old mtimes
@@ -1451,7 +1541,9 @@ def check_scenario(ctx, sc, builds, sid):
     prev = _UNSET         # the input as of the last execution (what the recorded state describes)
     seen_mt: dict = {}    # mtime -> bytes the file had when a build first saw it under that mtime
     for i, b in enumerate(builds):
-        if sc["kind"] in ("value", "pynode"):
+        if sc["kind"] == "spell":
+            cur = b"v1"
+        elif sc["kind"] in ("value", "pynode"):
             cur = sc["values"][i]
         elif sc["kind"] == "link":
             cur = bytes(b["dep_bytes"])            # the bytes the declared path denotes (through the link) at build time
@@ -1464,7 +1556,16 @@ def check_scenario(ctx, sc, builds, sid):
             ctx.violation(f"e2e-error: build {i + 1} of a trivial project ended with exit {b['exit']} / outcome {outc}", replay)
             return
         executed = outc == "SUCCESS"
-        if sc["kind"] in ("value", "pynode"):
+        if sc["kind"] == "spell":
+            cwd, sp, _ = PATHS_SPELLINGS[sc["steps"][i]]
+            demand, must_skip, fid = prev is _UNSET, prev is not _UNSET, None
+            what = "first build"
+            if must_skip and executed:
+                pc, ps, _ = PATHS_SPELLINGS[sc["steps"][i - 1]]
+                ctx.violation(f"paths-rerun: build {i + 1}: nothing changed except the spelling of `paths` ({ps!r} from ./{pc} -> {sp!r} from ./{cwd}) "
+                              f"but the unchanged task re-executed", replay)
+                must_skip = False
+        elif sc["kind"] in ("value", "pynode"):
             demand = prev is _UNSET or (same_shape(prev, cur) and told_apart(prev, cur))
             # pynode: an unchanged value.txt skips the producer and leaves the in-memory node without a value: nothing is demanded then
             must_skip = sc["kind"] == "value" and prev is not _UNSET and py_canon(prev) == py_canon(cur)
@@ -1484,7 +1585,7 @@ def check_scenario(ctx, sc, builds, sid):
             ctx.violation(f"e2e-rerun: build {i + 1}: nothing Python can tell apart changed (touch / identical rewrite / equal value) but the task re-executed", replay)
         if executed:
             prev = cur
-            if sc["kind"] in ("file", "link") and b["product"] != list(cur + b"!"):
+            if sc["kind"] in ("file", "link", "spell") and b["product"] != list(cur + b"!"):
                 ctx.violation(f"e2e-product: build {i + 1} executed but the product does not hold the current bytes", replay)
 
 
@@ -1501,7 +1602,7 @@ def _sc_from_json(j):
 
 
 def stream_e2e(ctx):
-    scs = value_scenarios(ctx.rng) + file_scenarios(ctx.rng) + link_scenarios(ctx.rng) + pynode_scenarios(ctx.rng)
+    scs = value_scenarios(ctx.rng) + file_scenarios(ctx.rng) + link_scenarios(ctx.rng) + pynode_scenarios(ctx.rng) + spell_scenarios(ctx.rng)
     if ctx.thorough or ctx.budget > 1:
         scs += value_scenarios(ctx.rng)[5:] + file_scenarios(ctx.rng)[2:3] + link_scenarios(ctx.rng)[2:]
     seeds = [ctx.rng.randrange(1, 2 ** 31) for _ in scs]
@@ -1543,6 +1644,9 @@ def replay(ctx, obj):
         res = check_pool_results(ctx, vals, sessions, seeds, count_cases=False)
         if ctx.use_model:
             model_pool(ctx, vals, res, [sessions[0][i]["k"] for i in range(len(vals))])
+    elif st == "tasksig":
+        sps = [tuple(x) for x in inp["spellings"]]
+        check_tasksigs(ctx, sps, run_tasksigs(sps, seed + 1), count=False)
     elif st == "pywrap":
         vals = [from_json(inp["a"])] + ([from_json(inp["b"])] if "b" in inp else [])
         r = run_worker({"mode": "pool", "values": [to_json(v) for v in vals]}, seed + 1)
